@@ -370,6 +370,13 @@ func (fc *FCtx) specField(n *SNode, env *Env) Val {
 	if n.Args[0].Op == "id" {
 		if _, ok := fc.lookupName(n.Args[0].Name, env); !ok && env.pkg != nil {
 			q := n.Args[0].Name
+			if imp := fc.importByName(env.pkg, q); imp != nil {
+				if obj := imp.Scope().Lookup(n.Name); obj != nil {
+					if v, ok := fc.objVal(obj); ok {
+						return v
+					}
+				}
+			}
 			for _, imp := range env.pkg.Types.Imports() {
 				if imp.Name() == q {
 					if obj := imp.Scope().Lookup(n.Name); obj != nil {
@@ -561,6 +568,15 @@ func (fc *FCtx) specCall(n *SNode, env *Env) Val {
 		fname := extFnName(al.full, sorts, 0)
 		fc.U.Fun(fname, sorts, rs)
 		return Val{T: app(fname, ts...), S: rs, GoT: rt}
+	case "with":
+		evalArgs()
+		if n.Args[2].Op != "str" || args[0].S.Kind != KData {
+			oos("spec: with(struct, \"Field\", value)")
+		}
+		if _, ok := fieldSel(args[0], n.Args[2].Name); !ok {
+			oos("spec: with: no field %s", n.Args[2].Name)
+		}
+		return Val{T: fieldUpdate(args[0], n.Args[2].Name, args[2].T), S: args[0].S, GoT: args[0].GoT}
 	case "unboxStr":
 		evalArgs()
 		return Val{T: app(fc.unboxFn(SStr, args[0].S), args[0].T), S: SStr}
